@@ -24,6 +24,7 @@ import (
 	"oss.terrastruct.com/d2/d2parser"
 	"oss.terrastruct.com/d2/d2target"
 	"oss.terrastruct.com/d2/lib/log"
+	"verif/h/eng"
 )
 
 var Bgctx = log.WithDefault(context.Background())
@@ -373,7 +374,7 @@ func Corpus() []string {
 	if corpusCache != nil {
 		return corpusCache
 	}
-	cache := filepath.Join("/verif/.scratch", "corpus.json")
+	cache := filepath.Join(eng.Root, ".scratch", "corpus.json")
 	if b, err := os.ReadFile(cache); err == nil {
 		var c []string
 		if json.Unmarshal(b, &c) == nil && len(c) > 0 {
@@ -435,8 +436,8 @@ func buildCorpus() []string {
 
 // WriteCorpusCache is called by the parent before workers start.
 func WriteCorpusCache() {
-	os.MkdirAll("/verif/.scratch", 0o755)
+	os.MkdirAll(filepath.Join(eng.Root, ".scratch"), 0o755)
 	c := buildCorpus()
 	b, _ := json.Marshal(c)
-	os.WriteFile("/verif/.scratch/corpus.json", b, 0o644)
+	os.WriteFile(filepath.Join(eng.Root, ".scratch", "corpus.json"), b, 0o644)
 }
